@@ -21,8 +21,8 @@ RULE = (
     "lookups) with every directory argument spelled in a drawn way (absolute str / Path, relative to cwd, ./-prefixed, with a .. segment, "
     "trailing separator, through a symlink, duplicated, permuted) or read_files(target subset in drawn order with duplicates, roots) x "
     "schedules: an in-process hash salt (the hashes of paths, definitions and composites are perturbed consistently with equality - a "
-    "stand-in for PYTHONHASHSEED that reorders every set the reader keeps), a permuted Path.rglob, and real child processes started "
-    "with different PYTHONHASHSEED values.  Oracles: reference listing / sort order / dependency closure model (exactly one composite per "
+    "stand-in for PYTHONHASHSEED that reorders every set the reader keeps), a permuted Path.rglob, real child processes started "
+    "with different PYTHONHASHSEED values, and (read_files) a call that follows a failed call in the same process.  Oracles: reference listing / sort order / dependency closure model (exactly one composite per "
     "file under the root, sorted by name then newest version first; read_files: direct == requested, transitive == closure minus direct, "
     "disjoint, same order, fingerprints equal to read_namespace's) and metamorphic equality of the canonical result across all "
     "spellings, salts, enumeration orders and hash seeds; directory sets are rejected with InvalidDefinitionError exactly when one lies "
@@ -111,12 +111,35 @@ def check_namespace(case: typing.Any, ctx: Ctx) -> Info:
     return Info(nontrivial, classes, sample={"files": sorted(wsp.rel_path(ws, x) for x in ws["defs"]), "root": repr(root_arg), "lookups": repr(lookup_arg)})
 
 
+def _failed_call(ctx: Ctx) -> None:
+    """A read that fails half-way (one dependency resolved, the next one missing) in this very process: whatever it leaves behind
+    must not leak into the calls that follow."""
+    import pydsdl
+
+    d = ctx.scratch()
+    try:
+        root = os.path.join(d, "zz")
+        os.makedirs(root)
+        for fn, text in (("Good.1.0.dsdl", "uint8 a\n@sealed\n"), ("Other.1.0.dsdl", "Good.1.0 g\n@sealed\n"),
+                         ("T.1.0.dsdl", "Good.1.0 g\nOther.1.0 o\nMissing.1.0 m\n@sealed\n")):
+            with open(os.path.join(root, fn), "w") as f:
+                f.write(text)
+        try:
+            pydsdl.read_files([os.path.join(root, "T.1.0.dsdl")], [root])
+        except pydsdl.InvalidDefinitionError:
+            pass
+    finally:
+        ctx.cleanup(d)
+
+
 def check_files(case: typing.Any, ctx: Ctx) -> Info:
     import pydsdl
 
     ws = case["ws"]
     d = _write(ctx, ws, False)
     try:
+        if case.get("after_failure"):
+            _failed_call(ctx)
         n = len(ws["defs"])
         targets = []
         for t in case["targets"]:
@@ -162,11 +185,13 @@ def check_files(case: typing.Any, ctx: Ctx) -> Info:
         roots_alt = [nu.spell_directory(d, wsp.root_dir(ws, i), case["root_style"] + i, os.path.join(d, "links")) for i in range(len(ws["roots"]))]
         if order % 2:
             roots_alt = list(reversed(roots_alt))
+        if case.get("after_failure"):
+            _failed_call(ctx)
         c1 = run(perm, roots_alt, case["salt"], "read_files:variant")
         require(c1 == c0, "files-result-depends-on-call", c0, c1, where)
     finally:
         ctx.cleanup(d)
-    classes = ["files", "targets:%d" % len(targets), "transitive:%s" % ("0" if not want_trans else ">=1"), "roots:%d" % len(ws["roots"])]
+    classes = ["files"] + (["after-a-failed-call"] if case.get("after_failure") else []) + ["targets:%d" % len(targets), "transitive:%s" % ("0" if not want_trans else ">=1"), "roots:%d" % len(ws["roots"])]
     return Info(bool(want_trans) or len(ws["roots"]) >= 2, classes, sample={"targets": [wsp.rel_path(ws, ws["defs"][i]) for i in targets], "transitive": ids(want_trans)})
 
 
@@ -291,6 +316,7 @@ def parts(ctx: Ctx) -> typing.List[Part]:
             "targets": st.lists(st.integers(0, 30), min_size=1, max_size=5),
             "order": st.integers(0, 1000),
             "duplicate": st.booleans(),
+            "after_failure": st.booleans(),
             "root_style": st.integers(0, 7),
             "salt": st.integers(1, 2**31),
             "rglob_seed": st.integers(0, 2**20),
